@@ -98,6 +98,7 @@ func (m *MLDv1MulticastListenerQueryMessage) DecodeFromBytes(data []byte, df gop
 		return err
 	}
 
+	m.Payload = nil
 	if len(data) > 20 {
 		m.Payload = data[20:]
 	}
